@@ -927,6 +927,9 @@ class MPO(MPSGeometry):
             new_W[i] = w
         self._W = new_W
         chi = self.chi
+        # new lists: a (shallow) `copy()` shares `IdL` and `IdR` with the MPO it was made from
+        self.IdL = list(self.IdL)
+        self.IdR = list(self.IdR)
         for b, p in enumerate(perms):
             IdL = self.IdL[b]
             if IdL is not None:
